@@ -346,9 +346,10 @@ def basemapOf : List Rec → Option Nat → Option Nat
     else basemapOf ps b
 
 /-- the type filter of the program-header loop -/
-def keepPhdr (env : ElfEnv) (p : Rec) : Bool :=
-  let t := fget p "p_type"
-  t == PT_LOAD || t == PT_INTERP || env.knownPT.contains t
+def keepPhdr (_env : ElfEnv) (_p : Rec) : Bool :=
+  -- (repair "Elf.Phdr keeps program headers of unknown type": entries whose `p_type` is outside
+  --  `Consts.All["p_type"]` (PT_GNU_PROPERTY …) used to be dropped; they are only logged now)
+  true
 
 /-- `Ehdr.unpack`, first part: `fields[0].unpack` → `IDENT().unpack` (a `StructCore.unpack`), then
     the magic test of `IDENT.unpack`. -/
